@@ -1,5 +1,14 @@
 """C20 -- TeamCity output is a balanced, correctly escaped service-message stream.
-Scenario:  [ :con <sink 0|1|2> <verbosity 0|1|2> ] [ :opt <run-ignored 0|1> <passes> ] <dur> <nfilters> { <name> } <ntests> { <group> <name> <file> <line> <ignored> <nstmts> { :f <file> <line> <msg> | :x <file> <line> <msg> } }
+Scenario:  [ :con <sink 0|1|2> <verbosity 0|1|2> ] [ :opt <run-ignored 0|1> <passes> ] [ :plug <mock 0|1> <leak 0|1> ] <dur> <nfilters> { <name> } <ntests> { <group> <name> <file> <line> <ignored> <nstmts> { <stmt> } }
+           stmt = :f <file> <line> <msg> | :x <file> <line> <msg>            addFailure(FailFailure) and continue | fail() and leave the stage
+                | :S <stage>       what follows belongs to 0 the pre-test action of the harness' own plugin, 1 setup, 2 the body (default), 3 teardown, 4 the post-test action
+                | :sep <code>      the shell is run in a separate process whose child 1 exits with 0, 2 exits with 1, 3 is killed by a signal (fork / waitpid scripted)
+                | :k <kind> <copies> <stop> <file> <line> <msg>   a failure object built by the constructor 2 (test, msg), 3 (test, file, line), 4 (test, file, line, msg),
+                                   5 a derived class on the 3-argument one, 6 a derived class on the 2-argument one; copied <copies> times; addFailure / failWith (stop)
+                | :e <std> <what>  throw std::runtime_error(what) (1) / throw 42 (0)
+                | :m <name>        mock().expectOneCall(name), never fulfilled     | :u <name>  mock().actualCall(name) that nothing expects
+                | :l <size>        a block on the leak plugin's detector, not released during the test
+           :plug = the real MockSupportPlugin / MemoryLeakWarningPlugin installed after the harness' own plugin
            (sink = where the stream is observed: 0 a subclass overriding printBuffer (test double), 1 the PlatformSpecificFPuts /
            PlatformSpecificFlush seam under the real ConsoleTestOutput::printBuffer, 2 file descriptor 1 under the real platform
            functions; verbosity 0 quiet, 1 -v, 2 -vv; without the prefix 0 0;
@@ -11,8 +20,10 @@ Scenario:  [ :con <sink 0|1|2> <verbosity 0|1|2> ] [ :opt <run-ignored 0|1> <pas
            :raw <bytes>  -- parser differential only (no library code): the Coq parser's reading of the bytes is compared with
            the reading of the independent decoder below.
            :rawv <bytes> -- the same for the message-anywhere reading (very verbose streams).
-Observation: <stream> <n> { <count> } -- everything that reached the sink; then per pass, per registered test, how
-           often the test's body was executed in that pass.
+Observation: <stream> <n> { <count> } <k> { <ordinal> } -- everything that reached the sink; then per pass, per registered test, how
+           often the test's body was executed in that pass; then the ordinals (over the failures of the run) of the failures whose text the
+           library composed itself (exception, mock, leak, separate process): `project` blanks their details values, the judges demand only
+           that they carry the scenario's pieces (what(), the call names).
 Judges: the extracted Coq `spec` (tc_parse + balance + faithfulness) and, independently, the Python decoder + property check here."""
 import re
 from vlib import tb
@@ -82,13 +93,26 @@ def plain(rng, maxlen=8):
 
 
 def ser_stmt(st):
-    return ":%s %s %x %s" % (st[0], tb(st[1]), st[2], tb(st[3]))
+    k = st[0]
+    if k in ("f", "x"):
+        return ":%s %s %x %s" % (k, tb(st[1]), st[2], tb(st[3]))
+    if k == "k":
+        return ":k %x %x %x %s %x %s" % (st[1], st[2], 1 if st[3] else 0, tb(st[4]), st[5], tb(st[6]))
+    if k == "e":
+        return ":e %x %s" % (1 if st[1] else 0, tb(st[2]))
+    if k in ("m", "u"):
+        return ":%s %s" % (k, tb(st[1]))
+    return ":%s %x" % (k, st[1])          # l, S, sep
 
 
-def ser(dur, tests, filters=(), opts=(False, 1), con=(0, 0)):
+NTOK = {"f": 4, "x": 4, "k": 7, "e": 3, "m": 2, "u": 2, "l": 2, "S": 2, "sep": 2, "p": 2}
+
+
+def ser(dur, tests, filters=(), opts=(False, 1), con=(0, 0), plug=(False, False)):
     ri, passes = opts
     out = ([] if tuple(con) == (0, 0) else [":con", "%x" % con[0], "%x" % con[1]])
     out += ([] if (not ri and passes == 1) else [":opt", "1" if ri else "0", "%x" % passes])
+    out += ([] if not (plug[0] or plug[1]) else [":plug", "1" if plug[0] else "0", "1" if plug[1] else "0"])
     out += ["%x" % dur, "%x" % len(filters)] + [tb(f) for f in filters] + ["%x" % len(tests)]
     for (g, n, f, l, ign, body) in tests:
         out += [tb(g), tb(n), tb(f), "%x" % l, "1" if ign else "0", "%x" % len(body)] + [ser_stmt(s) for s in body]
@@ -125,12 +149,34 @@ def opts_of(s):
     return (t[1] != "0", int(t[2], 16)) if t and t[0] == ":opt" else (False, 1)
 
 
-def parse_scn(s):
-    t = s.split()
+def plug_of(s):
+    """(mock plugin, leak plugin) of a scenario line"""
+    t = s.split(None, 9)
     if t and t[0] == ":con":
         t = t[3:]
     if t and t[0] == ":opt":
         t = t[3:]
+    return (t[1] != "0", t[2] != "0") if t and t[0] == ":plug" else (False, False)
+
+
+def parse_stmt(t, i):
+    k = t[i][1:]
+    if k in ("f", "x"):
+        return (k, unb(t[i + 1]), int(t[i + 2], 16), unb(t[i + 3]))
+    if k == "k":
+        return ("k", int(t[i + 1], 16), int(t[i + 2], 16), t[i + 3] != "0", unb(t[i + 4]), int(t[i + 5], 16), unb(t[i + 6]))
+    if k == "e":
+        return ("e", t[i + 1] != "0", unb(t[i + 2]))
+    if k in ("m", "u", "p"):
+        return (k, unb(t[i + 1]))
+    return (k, int(t[i + 1], 16))
+
+
+def parse_scn(s):
+    t = s.split()
+    for pre in (":con", ":opt", ":plug"):
+        if t and t[0] == pre:
+            t = t[3:]
     dur = int(t[0], 16); nf = int(t[1], 16)
     filters = [unb(x) for x in t[2:2 + nf]]
     n = int(t[2 + nf], 16); i = 3 + nf
@@ -140,9 +186,83 @@ def parse_scn(s):
         i += 6
         body = []
         for _ in range(m):
-            body.append((t[i][1:], unb(t[i + 1]), int(t[i + 2], 16), unb(t[i + 3]))); i += 4
+            st = parse_stmt(t, i)
+            body.append(st); i += NTOK[st[0]]
         tests.append((g, nm, f, l, ign, body))
     return dur, filters, tests
+
+
+# ---- what a test does (independent of the Coq model: written from the behaviour of UtestShell / Utest / the plugins)
+def split_test(t):
+    """-> (separate-process code, [pre, setup, body, teardown, post] statement lists)"""
+    sep, cur, st = 0, 2, [[], [], [], [], []]
+    for x in t[5]:
+        if x[0] == "S":
+            cur = x[1] if 0 <= x[1] <= 4 else 2
+        elif x[0] == "sep":
+            sep = x[1]
+        else:
+            st[cur].append(x)
+    return sep, st
+
+
+def fail_want(t, x):
+    """(file, line, ('=', text)) demanded of the testFailed message of a scripted failure statement"""
+    if x[0] in ("f", "x"):
+        return (x[1], x[2], ("=", x[3]))
+    kind, file, line, msg = x[1], x[4], x[5], x[6]
+    if kind in (2, 6):
+        return (t[2], t[3], ("=", msg))
+    if kind == 3:
+        return (file, line, ("=", b"no message"))
+    return (file, line, ("=", msg))
+
+
+def stage_want(t, failed, ss):
+    """failures of one of setup / body / teardown -> (wants, expected calls left, leaked, ran to its end)"""
+    ws, pending, leaked = [], [], False
+    for x in ss:
+        k = x[0]
+        if k in ("f", "x", "k"):
+            ws.append(fail_want(t, x)); failed = True
+            if k == "x" or (k == "k" and x[3]):
+                return ws, pending, leaked, False
+        elif k == "e":
+            ws.append((t[2], t[3], ("has", [x[2]] if x[1] else [])))
+            return ws, pending, leaked, False
+        elif k == "m":
+            pending.append(x[1])
+        elif k == "u":
+            if not failed:
+                ws.append((t[2], t[3], ("has", [x[1]])))
+                return ws, pending, leaked, False
+        elif k == "l":
+            leaked = True
+    return ws, pending, leaked, True
+
+
+def test_want(t, plug):
+    """(failures demanded of a test that is run, entries into its body)"""
+    sep, st = split_test(t)
+    if sep:
+        return ([] if sep == 1 else [(t[2], t[3], ("has", []))]), 0
+    lib = lambda l: (t[2], t[3], ("has", l))
+    pre = [fail_want(t, x) for x in st[0] if x[0] in ("f", "x", "k")]
+    su, p1, l1, c1 = stage_want(t, False, st[1])
+    bo, p2, l2, c2 = stage_want(t, bool(su), st[2]) if c1 else ([], [], False, False)
+    td, p3, l3, c3 = stage_want(t, bool(su or bo), st[3])
+    po = [fail_want(t, x) for x in st[4] if x[0] in ("f", "x", "k")]
+    pending = p1 + p2 + p3
+    out = pre + su + bo + td + po
+    if plug[0] and not (su or bo or td) and pending:
+        out.append(lib(pending))
+    if plug[1] and (l1 or l2 or l3) and not out:
+        out.append(lib([]))
+    return out, (1 if c1 else 0)
+
+
+def want_text(w):
+    return w[2][1] if w[2][0] == "=" else b" ".join(w[2][1])
 
 
 def selected(filters, t):
@@ -438,6 +558,123 @@ def gen_raw(rng, anywhere=False):
     return (":rawv " if anywhere else ":raw ") + tb(bytes(b))
 
 
+# ------------------------------------------------------------------ failures that do not come from check macros
+def K(kind, copies, stop, f, l, m):
+    return ("k", kind, copies, bool(stop), f, l, m)
+
+
+def x_grid():
+    """the small patterns, each in a test whose name and group need escaping (so that a formatted name would differ from the bare one
+    in more than the macro) and in a plainly named one: every constructor kind x copies x addFailure / failWith x setup / body /
+    teardown; every kind from the plugin's pre / post action; std / unknown exception in each stage, before and after other failures;
+    setup left early (body skipped, teardown still run); unmet expectation alone / after a failure of the test / after a failure of
+    a plugin action; unexpected call first / after a failure; leak alone / with another failure / with the mock failure; the three
+    separate-process endings; ignored tests with such stages with and without -ri; two passes; name filters"""
+    out = []
+    names = [(b"G", b"t"), (b"G|'x", b"t[1]'s\n")]
+    cons = [(0, 0), (1, 0), (2, 0), (1, 2), (2, 2), (0, 1)]
+    n = [0]
+    def add(stmts, plug=(False, False), ign=False, opts=(False, 1), filters=(), extra=()):
+        for g, nm in names:
+            t = (g, nm, b"a.cpp", 10, ign, list(stmts))
+            tests = [(g, b"before", b"a.cpp", 5, False, [])] + [t] + list(extra)
+            out.append(ser(1, tests, list(filters), opts, cons[n[0] % len(cons)], plug))
+            n[0] += 1
+    for kind in (2, 3, 4, 5, 6):
+        for copies in (0, 1, 3):
+            for stop in (0, 1):
+                for stage in (1, 2, 3):
+                    add([("S", stage), K(kind, copies, stop, b"h.cpp", 3, b"m'1"), ("f", b"a.cpp", 12, b"after")])
+        for stage in (0, 4):
+            add([("S", stage), K(kind, 0, 0, b"h.cpp", 3, b"plug]in"), K(kind, 2, 0, b"a.cpp", 30, b"again")])
+        add([("S", 0), K(kind, 1, 0, b"p.cpp", 1, b"pre"), ("S", 2), K(kind, 0, 0, b"b.cpp", 11, b"body"), ("S", 4), K(kind, 0, 0, b"q.cpp", 2, b"post")], (True, True))
+    for std in (1, 0):
+        for stage in (1, 2, 3):
+            add([("S", stage), ("e", std, b"what's [up]|")])
+            add([("S", stage), ("f", b"a.cpp", 12, b"first"), ("e", std, b"w\r\n"), ("f", b"a.cpp", 13, b"unreachable")], (True, True))
+        add([("S", 1), ("e", std, b"s"), ("S", 2), ("f", b"a.cpp", 12, b"skipped body"), ("S", 3), ("e", 1 - std, b"t")])
+        add([("S", 0), K(2, 0, 0, b"", 0, b"pre"), ("S", 2), ("e", std, b"b"), ("S", 4), K(2, 0, 0, b"", 0, b"post")], (True, True))
+    add([("S", 1), ("x", b"a.cpp", 11, b"setup fails"), ("S", 2), ("e", 1, b"never"), ("S", 3), K(2, 0, 0, b"", 0, b"teardown runs")])
+    M = (True, False); L = (False, True); ML = (True, True)
+    add([("m", b"foo")], M); add([("m", b"fo'o"), ("m", b"b[a]r")], ML); add([("S", 1), ("m", b"s"), ("S", 3), ("m", b"t")], M)
+    add([("m", b"foo"), ("f", b"a.cpp", 12, b"failed")], M)                       # not reported: the test has failed
+    add([("S", 0), K(2, 0, 0, b"", 0, b"pre"), ("S", 2), ("m", b"foo")], ML)      # reported: the plugin's failure does not count as the test's
+    add([("m", b"foo"), ("S", 4), K(6, 0, 0, b"", 0, b"post")], M)
+    add([("m", b"foo"), ("S", 3), ("e", 0, b"")], M)
+    add([("u", b"bar")], M); add([("u", b"b|ar"), ("f", b"a.cpp", 12, b"unreachable")], ML); add([("f", b"a.cpp", 12, b"x"), ("u", b"bar"), ("f", b"a.cpp", 13, b"reached")], M)
+    add([("S", 1), ("u", b"s"), ("S", 2), ("u", b"b"), ("S", 3), ("u", b"t")], M)
+    add([("m", b"foo"), ("u", b"bar")], M)
+    add([("l", 16)], L); add([("l", 1), ("l", 300)], ML); add([("S", 1), ("l", 8), ("S", 2), ("e", 1, b"x")], L); add([("l", 16), ("m", b"foo")], ML)
+    add([("l", 16), ("S", 4), K(2, 0, 0, b"", 0, b"post")], L); add([("l", 16)], M); add([("S", 3), ("l", 4)], L)
+    for code in (1, 2, 3):
+        add([("sep", code)]); add([("sep", code), ("f", b"a.cpp", 12, b"in the child"), ("S", 0), K(2, 0, 0, b"", 0, b"child too")], ML)
+    st = [("S", 0), K(2, 0, 0, b"", 0, b"pre"), ("S", 2), ("e", 1, b"w"), ("S", 3), K(6, 1, 0, b"", 0, b"td")]
+    for opts in ((True, 1), (False, 1), (True, 2), (False, 2)):
+        add(st, ML, True, opts); add(st, ML, False, opts); add([("sep", 2)], (False, False), True, opts)
+    add(st, ML, False, (False, 1), [b"t", b"t[1]'s\n"]); add(st, ML, False, (False, 1), [b"before"])
+    add(st, M, False, (False, 2), (), [(b"H", b"t", b"h.cpp", 1, False, [("e", 0, b"")]), (b"H", b"u'", b"h.cpp", 2, True, [("e", 0, b"")])])
+    return out
+
+
+def gen_x(rng, big=False):
+    """random runs of tests with stages: failure objects of every constructor kind, exceptions, the own plugin's pre / post failures,
+    unmet / unexpected mock calls, leaks, separate processes; half of the runs with names / paths / texts over the special alphabet"""
+    special = rng.random() < 0.5
+    tx = (lambda m=8: text(rng, m)) if special else (lambda m=8: plain(rng, 5))
+    plug = (rng.random() < 0.55, rng.random() < 0.5)
+    tests = []
+    gnames = []
+    for gi in range(rng.choice([1, 1, 2, 3] if not big else [3, 5])):
+        g = tx()
+        while g in gnames[-1:]:
+            g += b"x"
+        gnames.append(g)
+        tfile = tx()
+        for ti in range(rng.choice([1, 1, 2, 3] if not big else [2, 4, 6])):
+            name = tx()
+            line = rng.choice([1, 10, 100, rng.randrange(1, 5000)])
+            ign = rng.random() < 0.15
+            stmts = []
+            c = rng.random()
+            if c < 0.12:
+                stmts.append(("sep", rng.choice([1, 2, 2, 3])))
+            if c < 0.04 or c > 0.12:
+                used = set()
+                for stage in rng.sample(range(5), rng.choice([1, 1, 2, 2, 3, 5])):
+                    ss = []
+                    for _ in range(rng.choice([1, 1, 1, 2, 3])):
+                        k = rng.random()
+                        ff = tfile if rng.random() < 0.5 else tx()
+                        ll = rng.choice([0, line, line + 1, max(0, line - 1), rng.randrange(1, 5000)])
+                        if stage in (0, 4):
+                            ss.append(K(rng.choice([2, 2, 3, 4, 5, 6]), rng.choice([0, 0, 1, 2, 5]), 0, ff, ll, tx(12)))
+                        elif k < 0.30:
+                            ss.append(K(rng.choice([2, 2, 3, 4, 5, 6, 6]), rng.choice([0, 0, 1, 2, 5]), rng.random() < 0.25, ff, ll, tx(12)))
+                        elif k < 0.42:
+                            ss.append((rng.choice(["f", "f", "x"]), ff, ll, tx(12)))
+                        elif k < 0.65:
+                            ss.append(("e", rng.random() < 0.6, tx(12)))
+                        elif k < 0.80 and plug[0]:
+                            nm = b"e" + tx(6)
+                            if nm not in used:
+                                used.add(nm); ss.append(("m", nm))
+                        elif k < 0.88 and plug[0]:
+                            nm = b"u" + tx(6)
+                            if nm not in used:
+                                used.add(nm); ss.append(("u", nm))
+                        elif k < 0.97:
+                            ss.append(("l", rng.choice([1, 8, 16, 100, 4096])))
+                    if ss:
+                        stmts += [("S", stage)] + ss
+            tests.append((g, name, tfile, line, ign, stmts))
+    filters = []
+    if tests and rng.random() < 0.15:
+        names = sorted(set(t[1] for t in tests))
+        filters = rng.sample(names, rng.randrange(1, min(len(names), 3) + 1))
+    opts = (rng.random() < 0.25, rng.choice([1, 1, 1, 2]))
+    return ser(rng.choice([0, 3]), tests, filters, opts, rand_con(rng, 0.2, 0.3, 0.05, 0.25), plug)
+
+
 CONS = [(0, 0), (1, 0), (2, 0), (1, 2), (1, 0), (2, 2), (1, 1), (0, 2), (1, 0), (2, 1)]
 
 
@@ -460,14 +697,36 @@ def generate(tier, rng):
         out.append(gen_long(rng, big=(not quick and k % 4 == 0)))
     for k in range(12 if quick else 300):
         out.append(gen_many(rng, big=(not quick and k % 20 == 0)))
+    out += x_grid()
+    for k in range(350 if quick else 12000):
+        out.append(gen_x(rng, big=(not quick and k % 25 == 0)))
     return out
+
+
+def stmt_texts(st):
+    """(paths, texts) of a statement"""
+    k = st[0]
+    if k in ("f", "x"):
+        return [st[1]], [st[3]]
+    if k == "k":
+        return [st[4]], [st[6]]
+    if k == "e":
+        return [], [st[2]]
+    if k in ("m", "u"):
+        return [], [st[1]]
+    return [], []
 
 
 def _texts(s):
     dur, filters, tests = parse_scn(s)
-    names = [x for t in tests for x in (t[0], t[1], t[2])] + [st[1] for t in tests for st in t[5]]
-    msgs = [st[3] for t in tests for st in t[5]]
+    names = [x for t in tests for x in (t[0], t[1], t[2])] + [x for t in tests for st in t[5] for x in stmt_texts(st)[0]]
+    msgs = [x for t in tests for st in t[5] for x in stmt_texts(st)[1]]
     return tests, names, msgs
+
+
+def is_x(t):
+    """the test uses something beyond addFailure(FailFailure) / fail() in its body"""
+    return any(st[0] not in ("f", "x") for st in t[5])
 
 
 def _has(bs, chars=SPECIAL):
@@ -481,10 +740,98 @@ def nontrivial(s):
     return (_has(names) or _has(msgs) or len(segments(tests)) > 1 or any(t[4] for t in tests) or any(t[5] for t in tests))
 
 
+KIND_NAMES = {2: "TestFailure(test, text)", 3: "TestFailure(test, file, line)", 4: "TestFailure(test, file, line, text)",
+              5: "derived class on the 3-argument constructor", 6: "derived class on the 2-argument constructor"}
+STAGE_NAMES = ["plugin pre-action", "setup", "body", "teardown", "plugin post-action"]
+
+
+def classify_x(s, tests, lab):
+    """labels of the failures that do not come from check macros (only statements that are reached are labelled)"""
+    ri = opts_of(s)[0]
+    plug = plug_of(s)
+    filters = parse_scn(s)[1]
+    if plug[0]: lab.append("MockSupportPlugin installed")
+    if plug[1]: lab.append("MemoryLeakWarningPlugin installed")
+    for t in tests:
+        if not is_x(t):
+            continue
+        lab.append("test with stages / plugins / exceptions / constructor kinds")
+        runs = (not t[4] or ri) and selected(filters, t)
+        if not runs:
+            lab.append("such a test, not run (ignored / filtered out)")
+            continue
+        sep, st = split_test(t)
+        special_name = _has([t[1]]) or _has([t[0]])
+        if sep:
+            lab.append("separate process: " + {1: "child exits with 0", 2: "child exits with 1", 3: "child killed by a signal"}.get(sep, "?"))
+            if t[4]: lab.append("separate process: ignored test run under -ri")
+            if special_name and sep > 1: lab.append("short constructor in a test whose name / group has a special character")
+            continue
+        failed = False          # UtestShell::hasFailed_
+        setup_done = True
+        for si in range(5):
+            if si == 2 and not setup_done:
+                lab.append("setup left early: body skipped")
+                continue
+            for x in st[si]:
+                k = x[0]
+                leaves = False
+                if k in ("f", "x"):
+                    if si != 2: lab.append("FailFailure / fail() in " + STAGE_NAMES[si])
+                    leaves = k == "x" and si in (1, 2, 3)
+                    failed = failed or si in (1, 2, 3)
+                elif k == "k":
+                    lab.append("constructor: " + KIND_NAMES.get(x[1], "?"))
+                    lab.append("failure object in " + STAGE_NAMES[si])
+                    if x[2]: lab.append("failure object copied (%s)" % ("once" if x[2] == 1 else "several times"))
+                    if x[1] in (2, 6) and special_name: lab.append("short constructor in a test whose name / group has a special character")
+                    if x[1] in (2, 6) and t[4]: lab.append("short constructor in an ignored test run under -ri")
+                    if x[1] in (2, 6) and filters: lab.append("short constructor in a test selected by a name filter")
+                    leaves = bool(x[3]) and si in (1, 2, 3)
+                    if leaves: lab.append("failWith leaves the stage")
+                    failed = failed or si in (1, 2, 3)
+                elif k == "e" and si in (1, 2, 3):
+                    lab.append("exception (%s) in %s" % ("std::exception" if x[1] else "unknown type", STAGE_NAMES[si]))
+                    if special_name: lab.append("short constructor in a test whose name / group has a special character")
+                    if t[4]: lab.append("short constructor in an ignored test run under -ri")
+                    if filters: lab.append("short constructor in a test selected by a name filter")
+                    if x[1] and _has([x[2]]): lab.append("what() with a special character")
+                    leaves = True
+                    failed = True
+                elif k == "u" and si in (1, 2, 3):
+                    lab.append("unexpected mock call " + ("ignored (test has failed)" if failed else "reported"))
+                    if not failed:
+                        leaves = True
+                        failed = True
+                if leaves:
+                    if si == 1: setup_done = False
+                    break
+        ws, ex = test_want(t, plug)
+        nlib = sum(1 for w in ws if w[2][0] == "has")
+        if nlib: lab.append("failure whose text the library composes")
+        su, p1, l1, c1 = stage_want(t, False, st[1])
+        bo, p2, l2, c2 = stage_want(t, bool(su), st[2]) if c1 else ([], [], False, False)
+        td, p3, l3, c3 = stage_want(t, bool(su or bo), st[3])
+        own = [x for x in st[0] + st[4] if x[0] in ("f", "x", "k")]
+        if p1 + p2 + p3:
+            if not plug[0]: lab.append("mock expectation without the plugin")
+            elif su or bo or td: lab.append("unmet mock expectation not reported (test has failed)")
+            else:
+                lab.append("unmet mock expectation reported by MockSupportPlugin")
+                if own: lab.append("unmet mock expectation reported although a plugin action reported a failure")
+        if l1 or l2 or l3:
+            if not plug[1]: lab.append("leak without the plugin")
+            elif len(ws) == 1 and ws[0][2] == ("has", []): lab.append("leak reported by MemoryLeakWarningPlugin")
+            else: lab.append("leak not reported (another failure in the test)")
+        if nlib and len(ws) - nlib: lab.append("library-made and scripted failures in one test")
+    return lab
+
+
 def _lines_of(s):
     """the service-message lines the run should produce (classification only; written with the Python writer of the parser differential)"""
     dur, filters, tests = parse_scn(s)
     ri, passes = opts_of(s)
+    plug = plug_of(s)
     out = []
     for g in segments(tests):
         out.append(b"##teamcity[testSuiteStarted name='" + _w_esc(g[0][0]) + b"']")
@@ -493,10 +840,10 @@ def _lines_of(s):
                 continue
             out.append(b"##teamcity[testStarted name='" + _w_esc(t[1]) + b"']")
             if not t[4] or ri:
-                for st in reached(t[5]):
-                    outside = st[1] != t[2] or st[2] < t[3]
+                for w in test_want(t, plug)[0]:
+                    outside = w[0] != t[2] or w[1] < t[3]
                     out.append(b"##teamcity[testFailed name='" + _w_esc(t[1]) + b"' message='" + ((b"TEST failed (" + _w_esc(t[2]) + b":%d): " % t[3]) if outside else b"")
-                               + _w_esc(st[1]) + b":%d' details='" % st[2] + _w_esc(st[3]) + b"']")
+                               + _w_esc(w[0]) + b":%d' details='" % w[1] + _w_esc(want_text(w)) + b"']")
             out.append(b"##teamcity[testFinished name='" + _w_esc(t[1]) + b"' duration='%d']" % dur)
         out.append(b"##teamcity[testSuiteFinished name='" + _w_esc(g[0][0]) + b"']")
     return out
@@ -533,18 +880,21 @@ def classify(s):
     lab += ["groups=%d" % min(6, len(segs)), "tests=%s" % ("0" if not tests else "1" if len(tests) == 1 else "2-5" if len(tests) <= 5 else "6-15" if len(tests) <= 15 else "16+")]
     if any(t[4] for t in tests): lab.append("ignored test")
     if any(all(t[4] for t in g) for g in segs): lab.append("all-ignored group")
-    if any(t[4] and t[5] for t in tests): lab.append("ignored test with a body that would fail")
+    if any(t[4] and test_want(t, plug_of(s))[0] for t in tests): lab.append("ignored test with a body that would fail")
     ri0 = opts_of(s)[0]
+    plug0 = plug_of(s)
     runs = lambda t: not t[4] or ri0
-    nf = [len(reached(t[5])) for t in tests if runs(t)]
+    W = {id(t): test_want(t, plug0)[0] for t in tests}
+    nf = [len(W[id(t)]) for t in tests if runs(t)]
     if any(x == 1 for x in nf): lab.append("test failing once")
     if any(x > 1 for x in nf): lab.append("test failing several times")
     if any(st[0] == "x" for t in tests for st in t[5]): lab.append("fail() terminates test")
-    if any(st[1] != t[2] for t in tests if runs(t) for st in reached(t[5])): lab.append("failure outside the test's file")
-    if any(st[1] == t[2] and st[2] < t[3] for t in tests if runs(t) for st in reached(t[5])): lab.append("failure above the test's line (helper)")
+    if any(w[0] != t[2] for t in tests if runs(t) for w in W[id(t)]): lab.append("failure outside the test's file")
+    if any(w[0] == t[2] and w[1] < t[3] for t in tests if runs(t) for w in W[id(t)]): lab.append("failure above the test's line (helper)")
     if _has(names): lab.append("special char in a name/path")
     if _has(msgs): lab.append("special char in a message")
-    if _has([t[2] for t in tests if runs(t) and any(st[1] != t[2] or st[2] < t[3] for st in reached(t[5]))]): lab.append("special char in the test path of an outside failure")
+    if _has([t[2] for t in tests if runs(t) and any(w[0] != t[2] or w[1] < t[3] for w in W[id(t)])]): lab.append("special char in the test path of an outside failure")
+    classify_x(s, tests, lab)
     if any(b.endswith(b"|") for b in names + msgs): lab.append("text ending in |")
     if any(t[0] == b"" for t in tests): lab.append("empty group name")
     if any(t[1] == b"" for t in tests): lab.append("empty test name")
@@ -557,8 +907,8 @@ def classify(s):
     if ri:
         ig = [t for t in tests if t[4]]
         if ig: lab.append("run-ignored: ignored test is run")
-        if any(not reached(t[5]) for t in ig): lab.append("run-ignored: ignored test passes")
-        if any(reached(t[5]) for t in ig): lab.append("run-ignored: ignored test fails")
+        if any(not W[id(t)] for t in ig): lab.append("run-ignored: ignored test passes")
+        if any(W[id(t)] for t in ig): lab.append("run-ignored: ignored test fails")
         if tests and tests[0][4]: lab.append("run-ignored: ignored test in first position")
         if any(t[4] for t in tests[1:]): lab.append("run-ignored: ignored test in a later position")
         if ig and any(not t[4] for t in tests): lab.append("run-ignored: ignored and normal tests mixed")
@@ -567,7 +917,7 @@ def classify(s):
         lab.append("name filters")
         if any(not any(selected(filters, t) for t in g) for g in segs): lab.append("group with no selected test (empty suite)")
         if any(selected(filters, t) for t in tests) and not all(selected(filters, t) for t in tests): lab.append("some tests filtered out")
-    return lab
+    return list(dict.fromkeys(lab))
 
 
 # ------------------------------------------------------------------ independent judge: a decoder written from the TeamCity documentation
@@ -611,15 +961,6 @@ def segments(tests):
     return segs
 
 
-def reached(body):
-    out = []
-    for st in body:
-        out.append(st)
-        if st[0] == "x":
-            break
-    return out
-
-
 def judge(s, obs):
     """None or text of what is wrong with the observation of this run (the property, stated over the decoded messages and the
     observed executions of test bodies)"""
@@ -630,9 +971,11 @@ def judge(s, obs):
         msgs = decode_stream(unb(ot[0]), anywhere=(con_of(s)[1] == 2))
     except ValueError as e:
         return "stream does not decode (%s)" % str(e)[:60]
+    plug = plug_of(s)
     try:
-        execs = [int(x, 16) for x in ot[2:]]
-        if len(execs) != int(ot[1], 16):
+        ne = int(ot[1], 16)
+        execs = [int(x, 16) for x in ot[2:2 + ne]]
+        if len(execs) != ne:
             raise ValueError
     except (ValueError, IndexError):
         return "observation without execution counts"
@@ -685,8 +1028,9 @@ def judge(s, obs):
                 return "test flagged testIgnored although it is run"
             if not flagged and not_run:
                 return "ignored test that is not run lacks the testIgnored flag"
-            if not flagged and ran != 1:
-                return "body of a test that is not flagged was executed %d times" % ran
+            want_exec = test_want(tests[i], plug)[1]
+            if not flagged and ran != want_exec:
+                return "body of a test that is not flagged was executed %d times (the test demands %d)" % (ran, want_exec)
     for p in range(passes):
         for i, t in enumerate(tests):
             if not selected(filters, t) and execs[p * len(tests) + i]:
@@ -703,21 +1047,31 @@ def judge(s, obs):
                 if t[4] and not ri:
                     exp.append((b"testIgnored", t[1], None, None))
                 else:
-                    for st in reached(t[5]):
-                        exp.append((b"testFailed", t[1], t, st))
+                    for w in test_want(t, plug)[0]:
+                        exp.append((b"testFailed", t[1], t, w))
                 exp.append((b"testFinished", t[1], None, None))
             exp.append((b"testSuiteFinished", g[0][0], None, None))
+    if [n for n, a in msgs] == [e[0] for e in exp]:
+        # same kinds in the same order: say which name is wrong (a testFailed with a foreign name is caught by the balance above)
+        for (n, a), e in zip(msgs, exp):
+            if a[b"name"] != e[1]:
+                return "%s names %s instead of the test / group of the run" % (n.decode(), "another text")
     if [(n, a[b"name"]) for n, a in msgs] != [(e[0], e[1]) for e in exp]:
         return "message sequence / names differ from the run"
     for (n, a), e in zip(msgs, exp):
         if e[3] is not None:
-            t, st = e[2], e[3]
-            if a.get(b"details") != st[3]:
+            t, w = e[2], e[3]
+            det = a.get(b"details")
+            if det is None:
+                return "testFailed without details"
+            if w[2][0] == "=" and det != w[2][1]:
                 return "details value is not the failure text"
+            if w[2][0] == "has" and not all(x in det for x in w[2][1]):
+                return "details value of a library-made failure lacks the scenario's text (what() / call name)"
             loc = a.get(b"message")
-            if loc is None or not loc.endswith(st[1] + b":" + str(st[2]).encode()):
+            if loc is None or not loc.endswith(w[0] + b":" + str(w[1]).encode()):
                 return "message value does not end with the failure location"
-            if (st[1] != t[2] or st[2] < t[3]) and (t[2] + b":" + str(t[3]).encode()) not in loc:
+            if (w[0] != t[2] or w[1] < t[3]) and (t[2] + b":" + str(t[3]).encode()) not in loc:
                 return "message value lacks the test location"
     return None
 
@@ -753,7 +1107,18 @@ def project(obs, flavour):
             msgs = decode_stream(unb(t[0]))
         except ValueError:
             msgs = decode_stream(unb(t[0]), anywhere=True)      # a very verbose stream (the judges know the verbosity; here only the messages are compared)
-        return repr([(n, sorted((k, v) for k, v in a if k in (b"name", b"details"))) for n, a in msgs]) + " executed=" + " ".join(t[2:])
+        ne = int(t[1], 16)
+        execs, rest = t[2:2 + ne], t[2 + ne:]
+        marks = set(int(x, 16) for x in rest[1:]) if rest else set()     # failures whose text the library composed: wording not compared
+        out, k = [], 0
+        for n, a in msgs:
+            keep = sorted((key, v) for key, v in a if key in (b"name", b"details"))
+            if n == b"testFailed":
+                if k in marks:
+                    keep = [(key, b"*" if key == b"details" else v) for key, v in keep]
+                k += 1
+            out.append((n, keep))
+        return repr(out) + " executed=" + " ".join(execs) + " library-made=" + " ".join("%x" % m for m in sorted(marks))
     except ValueError:
         return "REJECT"
     except Exception:
@@ -772,6 +1137,7 @@ def signature(s, obs):
     if _has(names): where.append("name/path")
     if any(t[0] == b"" for t in tests): where.append("empty group")
     if opts_of(s)[0]: where.append("run-ignored")
+    if any(is_x(t) for t in tests): where.append("stages/plugins/constructors")
     sink, verb = con_of(s)
     if sink and max([len(l) + 1 for l in _lines_of(s)] + [0]) > 255: where.append("console path, long line")
     return "%s [%s]" % (w, ",".join(where) or "-")
@@ -783,17 +1149,25 @@ def shrink(s):
     dur, filters, tests = parse_scn(s)
     ri, passes = opts_of(s)
     con = con_of(s)
-    S = lambda d, ts, fs=(): ser(d, ts, fs, (ri, passes), con)
+    plug = plug_of(s)
+    S = lambda d, ts, fs=(): ser(d, ts, fs, (ri, passes), con, plug)
     if con[1]:
-        yield ser(dur, tests, filters, (ri, passes), (con[0], 0))
+        yield ser(dur, tests, filters, (ri, passes), (con[0], 0), plug)
     if con[0] == 2:
-        yield ser(dur, tests, filters, (ri, passes), (1, con[1]))
+        yield ser(dur, tests, filters, (ri, passes), (1, con[1]), plug)
     if con[0]:
-        yield ser(dur, tests, filters, (ri, passes), (0, con[1]))     # still failing below the test double: the writer itself is at fault
+        yield ser(dur, tests, filters, (ri, passes), (0, con[1]), plug)     # still failing below the test double: the writer itself is at fault
     if passes > 1:
-        yield ser(dur, tests, filters, (ri, 1), con)
+        yield ser(dur, tests, filters, (ri, 1), con, plug)
     if ri:
-        yield ser(dur, tests, filters, (False, passes), con)
+        yield ser(dur, tests, filters, (False, passes), con, plug)
+    if plug[0] and plug[1]:
+        yield ser(dur, tests, filters, (ri, passes), con, (True, False))
+        yield ser(dur, tests, filters, (ri, passes), con, (False, True))
+    if plug[1] and not plug[0]:
+        yield ser(dur, tests, filters, (ri, passes), con, (False, False))
+    if plug[0] and not any(st[0] in ("m", "u") for t in tests for st in t[5]):
+        yield ser(dur, tests, filters, (ri, passes), con, (False, plug[1]))
     if dur:
         yield S(0, tests, filters)
     if filters:
@@ -804,10 +1178,25 @@ def shrink(s):
     for i in range(len(tests)):
         if len(tests) > 1:
             yield S(dur, tests[:i] + tests[i + 1:], filters)
+    W = lambda i, t2: S(dur, tests[:i] + [t2] + tests[i + 1:], filters)
     for i, t in enumerate(tests):
         g, n, f, l, ign, body = t
         for j in range(len(body)):
-            yield S(dur, tests[:i] + [(g, n, f, l, ign, body[:j] + body[j + 1:])] + tests[i + 1:], filters)
+            if body[j][0] == "S" and j + 1 < len(body) and body[j + 1][0] != "S":
+                # dropping the marker alone moves its statements to the stage before: only into setup / body / teardown
+                before = [x[1] for x in body[:j] if x[0] == "S"]
+                if (before[-1] if before else 2) not in (1, 2, 3):
+                    continue
+            yield W(i, (g, n, f, l, ign, body[:j] + body[j + 1:]))
+        for j in range(len(body) - 1):
+            if body[j][0] == "S" and (j + 2 >= len(body) or body[j + 2][0] == "S"):
+                yield W(i, (g, n, f, l, ign, body[:j] + body[j + 2:]))       # the marker together with its only statement
+        for j, st in enumerate(body):
+            if st[0] == "k":
+                if st[2]:
+                    yield W(i, (g, n, f, l, ign, body[:j] + [("k", st[1], 0) + st[3:]] + body[j + 1:]))
+                if st[3]:
+                    yield W(i, (g, n, f, l, ign, body[:j] + [st[:3] + (False,) + st[4:]] + body[j + 1:]))
     def shorter(b):
         if len(b) > 1:
             yield b[:len(b) // 2]
@@ -830,6 +1219,12 @@ def shrink(s):
             if all(t[1] != x for t in tests):          # a filter that selects nothing may become any other text that selects nothing
                 if all(t[1] != c for t in tests):
                     yield S(dur, tests, filters[:i] + [c] + filters[i + 1:])
+    # positions of the path / line / text inside a statement, by kind
+    PATH = {"f": 1, "x": 1, "k": 4}
+    LINE = {"f": 2, "x": 2, "k": 5}
+    TEXT = {"f": 3, "x": 3, "k": 6, "e": 2, "m": 1, "u": 1}
+    def put(st, pos, v):
+        return st[:pos] + (v,) + st[pos + 1:]
     for i, t in enumerate(tests):
         g, n, f, l, ign, body = t
         for fld in range(3):
@@ -842,25 +1237,27 @@ def shrink(s):
                     if fld == 1 and n in filters:
                         # keep the test selected: shorten the filter too
                         yield S(dur, tests[:i] + [tuple(tt)] + tests[i + 1:], [c if x == n else x for x in filters])
-                    if fld == 2 and any(st[1] == f for st in body):
+                    if fld == 2 and any(st[0] in PATH and st[PATH[st[0]]] == f for st in body):
                         # keep "failure in the test's own file": shorten the path in the statements too
-                        tt[5] = [(st[0], c, st[2], st[3]) if st[1] == f else st for st in body]
+                        tt[5] = [put(st, PATH[st[0]], c) if st[0] in PATH and st[PATH[st[0]]] == f else st for st in body]
                         yield S(dur, tests[:i] + [tuple(tt)] + tests[i + 1:], filters)
                         tt = list(t); tt[fld] = c
                     yield S(dur, tests[:i] + [tuple(tt)] + tests[i + 1:], filters)
         if l > 1:
-            if any(st[2] < l for st in body):
+            if any(st[0] in LINE and st[LINE[st[0]]] < l for st in body):
                 # keep "failure above the test's line": those failures move to line 0
-                yield S(dur, tests[:i] + [(g, n, f, 1, ign, [(st[0], st[1], 0, st[3]) if st[2] < l else st for st in body])] + tests[i + 1:], filters)
-            yield S(dur, tests[:i] + [(g, n, f, 1, ign, body)] + tests[i + 1:], filters)
+                yield W(i, (g, n, f, 1, ign, [put(st, LINE[st[0]], 0) if st[0] in LINE and st[LINE[st[0]]] < l else st for st in body]))
+            yield W(i, (g, n, f, 1, ign, body))
         for j, st in enumerate(body):
-            for fld in (1, 3):
-                for c in shorter(st[fld]):
-                    ss = list(st); ss[fld] = c
-                    yield S(dur, tests[:i] + [(g, n, f, l, ign, body[:j] + [tuple(ss)] + body[j + 1:])] + tests[i + 1:], filters)
-            if st[2] > 1:
-                ss = list(st); ss[2] = 1
-                yield S(dur, tests[:i] + [(g, n, f, l, ign, body[:j] + [tuple(ss)] + body[j + 1:])] + tests[i + 1:], filters)
+            for pos in [d[st[0]] for d in (PATH, TEXT) if st[0] in d]:
+                for c in shorter(st[pos]):
+                    if st[0] in ("m", "u") and any(o[0] in ("m", "u") and o is not st and o[1] == c for o in body):
+                        continue                # call names stay distinct
+                    yield W(i, (g, n, f, l, ign, body[:j] + [put(st, pos, c)] + body[j + 1:]))
+            if st[0] in LINE and st[LINE[st[0]]] > 1:
+                yield W(i, (g, n, f, l, ign, body[:j] + [put(st, LINE[st[0]], 1)] + body[j + 1:]))
+            if st[0] == "l" and st[1] > 1:
+                yield W(i, (g, n, f, l, ign, body[:j] + [("l", 1)] + body[j + 1:]))
 
 
 LEVEL_TEXT = ("Machine-checked (Coq) theorems over an executable model of TeamCityTestOutput (currtest_, currGroup_, groupOpen_, printEscaped, the pieces "
